@@ -6,13 +6,11 @@ import F1Verif.Generated.Facts
 import F1Verif.Expected
 namespace F1.Props.FactsC17
 
+-- (average_Add, average_Update, average_average, average_drain: re-proved semantically on the regenerated MiniGo programs, see Props/Refine*.lean)
+
 theorem fact_active_Run : F1.Generated.skel_active_Run = F1.Expected.skel_active_Run := by rfl
 theorem fact_active_Setup : F1.Generated.skel_active_Setup = F1.Expected.skel_active_Setup := by rfl
-theorem fact_average_Add : F1.Generated.skel_average_Add = F1.Expected.skel_average_Add := by rfl
-theorem fact_average_Update : F1.Generated.skel_average_Update = F1.Expected.skel_average_Update := by rfl
 theorem fact_average_Snapshot : F1.Generated.skel_average_Snapshot = F1.Expected.skel_average_Snapshot := by rfl
-theorem fact_average_average : F1.Generated.skel_average_average = F1.Expected.skel_average_average := by rfl
-theorem fact_average_drain : F1.Generated.skel_average_drain = F1.Expected.skel_average_drain := by rfl
 theorem fact_average_CollectLifetime : F1.Generated.skel_average_CollectLifetime = F1.Expected.skel_average_CollectLifetime := by rfl
 theorem fact_average_Record : F1.Generated.skel_average_Record = F1.Expected.skel_average_Record := by rfl
 theorem fact_stats_Snapshot : F1.Generated.skel_stats_Snapshot = F1.Expected.skel_stats_Snapshot := by rfl
